@@ -255,10 +255,129 @@ Section Case.
     rewrite (cx_ext ext fuel (S (S D)) _ _ _ x_vi_drawfix_none).
     unfold case_mem8 in Hdraw. rewrite <- LM in Hdraw. fold m7 in Hdraw. rewrite Hdraw. xs. reflexivity.
   Qed.
+
+  Lemma case_f_nonul cmd : forall k t, nonul t -> nonul (case_f k cmd t).
+  Proof.
+    induction k as [|k IH]; intros t H; cbn [case_f]; [exact H|]. destruct t as [|c r]; [constructor|].
+    inversion H as [|? ? Hc Hr]; subst. constructor; [apply case_byte_ok; unfold byte_ok in Hc; lia|].
+    apply nonul_app; [apply nonul_firstn; exact Hr|apply IH, nonul_skipn'; exact Hr].
+  Qed.
+  (* ================================================================ vi_case, character-wise *)
+  Definition case_pref (lines : list bytes) (r1 o1 : Z) : bytes := sub_b (getb lines r1) 0 o1.
+  Definition case_post (lines : list bytes) (r2 o2 : Z) : bytes := sub_b (getb lines r2) o2 (-1).
+  Definition case_line (lines : list bytes) (r1 o1 r2 o2 ln cmd : Z) : bytes :=
+    case_pref lines r1 o1 ++ case_text lines r1 o1 r2 o2 ln cmd ++ case_post lines r2 o2.
+  Definition case_mem7c (m : mem) (lines : list bytes) (r1 o1 r2 o2 ln cmd : Z) : mem :=
+    (m ++ cstr_block (zb (case_text lines r1 o1 r2 o2 ln cmd)) :: rg_tail r1 r2)
+    ++ [cstr_block (zb (case_pref lines r1 o1)); cstr_block (zb (case_post lines r2 o2)); cstr_block (zb (case_line lines r1 o1 r2 o2 ln cmd))].
+  Definition case_mem8c (m m6 : mem) (r1 r2 o2 : Z) : mem :=
+    let p6 := (length m + 1 + length (rg_tail r1 r2))%nat in
+    upd (upd (upd (upd (upd (upd m6 (p6 + 2) []) G_xrow [VInt r2]) G_xoff [VInt o2]) (length m) []) p6 []) (p6 + 1) [].
+  Theorem tr_vi_case_chars D m lb bln lbs lines r1 o1 r2 o2 ln cmd xr xo u' m6 ud m9 :
+    ed_at m lb bln lbs lines -> 0 <= r1 + 1 <= 2147483647 -> int_ok r2 -> int_ok (r2 + 1) -> int_ok (r2 - r1) -> int_ok (r2 - r1 + 1) -> int_ok o2 ->
+    region_in lines r1 (op_o1 ln o1) r2 (op_o2 ln o2) -> lnb ln = false -> sub_in (getb lines r1) 0 o1 -> sub_in (getb lines r2) o2 (-1) ->
+    cell_at m G_xrow xr -> cell_at m G_xoff xo ->
+    (length (op_text lines r1 o1 r2 o2 ln) < fuel)%nat ->
+    (forall b, lown b -> (b < length m)%nat) -> ~ lown G_xrow -> ~ lown G_xoff ->
+    let p6 := (length m + 1 + length (rg_tail r1 r2))%nat in
+    ext X_lbuf_edit [VPtr lb 0; VPtr (p6 + 2) 0; VInt r1; VInt (r2 + 1)] (case_mem7c m lines r1 o1 r2 o2 ln cmd) = Ok (u', m6) ->
+    eframe lown (case_mem7c m lines r1 o1 r2 o2 ln cmd) m6 ->
+    ext X_vi_drawfix [VInt r1; VInt r2; VInt (r2 - r1 + 1); VInt 0] (case_mem8c m m6 r1 r2 o2) = Ok (ud, m9) ->
+    callx ext cprog fuel (S (S (S (S D)))) F_vi_case [VInt r1; VInt o1; VInt r2; VInt o2; VInt ln; VInt cmd] m = Ok (VInt 16, m9).
+  Proof.
+    intros E Hr Ir2 Ir21 Id Id1 Io2 Hin Eln Hin5 Hin6 Hx Ho Hft Hlown Nlx Nlo p6 Hedit [Hlen6 Hfr6] Hdraw.
+    assert (Lx : (G_xrow < length m)%nat) by (apply nth_error_Some; unfold cell_at in Hx; congruence).
+    assert (Lo : (G_xoff < length m)%nat) by (apply nth_error_Some; unfold cell_at in Ho; congruence).
+    pose proof (la_nonul _ _ _ _ _ (ed_lb _ _ _ _ _ E)) as Hnn.
+    set (txt := op_text lines r1 o1 r2 o2 ln) in *.
+    assert (Ntxt : nonul txt) by (unfold txt, op_text; apply region_b_nonul; exact Hnn).
+    rewrite callx_S. change (nth_error cprog F_vi_case) with (Some cf_vi_case).
+    cbn [fn_nparams cf_vi_case length Nat.eqb fn_nlocals Nat.sub repeat app].
+    change (fn_body cf_vi_case) with
+      (SSeq (SExpr (ESetLocal 8 (ECall F_lbuf_region [ECall F_ex_lbuf []; ELocal 0; ECond (ELocal 4) (EConst 0) (ELocal 1); ELocal 2; ECond (ELocal 4) (EUn ONeg I32 (EConst 1)) (ELocal 3)])))
+         (SSeq (SExpr (ESetLocal 9 (ELocal 8))) (SSeq vcase_loop vcase_rest))).
+    rewrite exec_seq, (exec_setlocal _ _ _ _ _ _ _ (cx_region_op ext fuel OR D m lb bln lbs lines r1 o1 r2 o2 ln [VInt cmd; VUndef; VUndef; VUndef; VUndef; VUndef; VUndef] E Hr Hin)).
+    unfold put_mem. fold txt. xc. rewrite exec_seq, exec_expr. xc. rewrite exec_seq.
+    destruct (vcase_loop_ok D m (rg_tail r1 r2) cmd (VInt r1) (VInt o1) (VInt r2) (VInt o2) (VInt ln) VUndef VUndef (VPtr (length m) 0) VUndef
+                (length txt) txt O fuel VUndef Ntxt ltac:(lia) ltac:(lia) Hft Hft) as (o' & l10' & X).
+    change (Z.of_nat 0) with 0 in X. rewrite X. clear X. cbn [firstn skipn app].
+    change (case_f (length txt) cmd txt) with (case_text lines r1 o1 r2 o2 ln cmd). set (ct := case_text lines r1 o1 r2 o2 ln cmd) in *.
+    set (pref := case_pref lines r1 o1) in *. set (post := case_post lines r2 o2) in *.
+    assert (Nct : nonul ct) by (unfold ct, case_text; apply case_f_nonul; exact Ntxt).
+    assert (Npre : nonul pref) by (apply sub_b_nonul; intros s0 Es; eapply getb_nonul; eassumption).
+    assert (Npost : nonul post) by (apply sub_b_nonul; intros s0 Es; eapply getb_nonul; eassumption).
+    set (M := m ++ cstr_block (zb ct) :: rg_tail r1 r2).
+    assert (LM : length M = p6) by (unfold M, p6; rewrite app_length; cbn [length]; lia).
+    assert (EMt : forall t, ed_at (M ++ t) lb bln lbs lines) by (intro t; unfold M; apply ed_at_app, ed_at_app; exact E).
+    assert (Q : forall (t : list block) k x, nth_error t k = Some x -> nth_error (M ++ t) (p6 + k) = Some x) by (intros t k x HQ; rewrite <- LM, nth_app_at; exact HQ).
+    assert (U : forall (t : list block) k x, upd (M ++ t) (p6 + k) x = M ++ upd t k x) by (intros t k x; rewrite <- LM; apply upd_app_at).
+    assert (SR : forall t, str_at (M ++ t) (length m) ct) by (intro t; unfold M; apply str_at_app, str_at0).
+    unfold vcase_rest. cbn [fn_body cf_vi_case]. unfold lnb in Eln. xs. rewrite Eln. xs.
+    (* pref, post *)
+    pose proof (EMt []) as EM0. rewrite app_nil_r in EM0.
+    rewrite (cx_xb ext fuel (S (S D)) M lb bln lbs lines EM0). xs. rewrite (cx_get ext fuel (S (S D)) M lb bln lbs lines r1 EM0). xs.
+    rewrite (cx_ext ext fuel (S (S D)) _ _ _ x_uc_sub_none), (o_sub ext OR M _ _ 0 o1 (sarg_line M lb bln lbs lines r1 (ed_lb _ _ _ _ _ EM0)) Hin5).
+    unfold fresh. fold (case_pref lines r1 o1). fold pref. xs. rewrite Eln. xs.
+    rewrite (cx_xb ext fuel (S (S D)) _ lb bln lbs lines (EMt _)). xs. rewrite (cx_get ext fuel (S (S D)) _ lb bln lbs lines r2 (EMt _)). xs.
+    change (chk I32 (- (1))) with (@Ok Z (-1)). xs.
+    rewrite (cx_ext ext fuel (S (S D)) _ _ _ x_uc_sub_none), (o_sub ext OR _ _ _ o2 (-1) (sarg_line _ lb bln lbs lines r2 (ed_lb _ _ _ _ _ (EMt _))) Hin6).
+    unfold fresh. fold (case_post lines r2 o2). fold post. xs. rewrite app_tail. cbn [app]. rewrite Eln. xs.
+    rewrite !app_length. cbn [length]. rewrite LM.
+    (* sb = sbuf_make(); sbuf_str(sb, pref); sbuf_str(sb, region); sbuf_str(sb, post) *)
+    rewrite (cx_ext ext fuel (S (S D)) _ _ _ x_sbuf_make_none), (o_make ext OR _). unfold fresh. xs. rewrite app_tail. cbn [app]. rewrite !app_length. cbn [length]. rewrite LM.
+    replace (p6 + 1 + 1)%nat with (p6 + 2)%nat by lia.
+    rewrite (cx_ext ext fuel (S (S D)) _ _ _ x_sbuf_str_none).
+    match goal with |- context [ext X_sbuf_str _ ?mm] =>
+      pose proof (o_str ext OR mm (p6 + 2) [] p6 pref O ltac:(unfold str_at; apply Q; reflexivity) ltac:(unfold str_at; rewrite <- (Nat.add_0_r p6); apply Q; reflexivity) ltac:(lia) Npre ltac:(lia)) as X end.
+    change (Z.of_nat 0) with 0 in X. rewrite X. clear X. xs. cbn [skipn app]. rewrite U. cbn [upd firstn skipn app].
+    rewrite (cx_ext ext fuel (S (S D)) _ _ _ x_sbuf_str_none).
+    match goal with |- context [ext X_sbuf_str _ ?mm] =>
+      pose proof (o_str ext OR mm (p6 + 2) pref (length m) ct O ltac:(unfold str_at; apply Q; reflexivity) ltac:(apply SR) ltac:(unfold p6; lia) Nct ltac:(lia)) as X end.
+    change (Z.of_nat 0) with 0 in X. rewrite X. clear X. xs. cbn [skipn]. rewrite U. cbn [upd firstn skipn app].
+    rewrite (cx_ext ext fuel (S (S D)) _ _ _ x_sbuf_str_none).
+    match goal with |- context [ext X_sbuf_str _ ?mm] =>
+      pose proof (o_str ext OR mm (p6 + 2) (pref ++ ct) (p6 + 1) post O ltac:(unfold str_at; apply Q; reflexivity) ltac:(unfold str_at; apply Q; reflexivity) ltac:(lia) Npost ltac:(lia)) as X end.
+    change (Z.of_nat 0) with 0 in X. rewrite X. clear X. xs. cbn [skipn]. rewrite U. cbn [upd firstn skipn app]. rewrite <- app_assoc.
+    match goal with |- context [callx ext cprog fuel _ F_ex_lbuf [] ?mm] => change mm with (case_mem7c m lines r1 o1 r2 o2 ln cmd) end.
+    set (M7 := case_mem7c m lines r1 o1 r2 o2 ln cmd) in *. set (line := pref ++ ct ++ post).
+    assert (EM7 : M7 = M ++ [cstr_block (zb pref); cstr_block (zb post); cstr_block (zb line)]) by reflexivity.
+    assert (E7 : ed_at M7 lb bln lbs lines) by (rewrite EM7; apply EMt).
+    assert (L7 : length M7 = (p6 + 3)%nat) by (rewrite EM7, app_length, LM; reflexivity).
+    assert (S7 : str_at M7 (p6 + 2) line) by (rewrite EM7; unfold str_at; apply Q; reflexivity).
+    rewrite (cx_xb ext fuel (S (S D)) M7 lb bln lbs lines E7). xs.
+    rewrite (cx_ext ext fuel (S (S D)) _ _ _ x_sbuf_buf_none), (o_buf ext OR M7 _ line S7). xs. rewrite chk_I32 by (unfold int_ok in Ir21; lia). xs.
+    rewrite (cx_ext ext fuel (S (S D)) _ _ _ x_lbuf_edit_none), Hedit. xs.
+    assert (Nl : forall k, (length m <= k)%nat -> ~ lown k) by (intros k Hk Hl; specialize (Hlown _ Hl); lia).
+    assert (Hp6 : (length m < p6)%nat) by (unfold p6; lia).
+    assert (S6 : str_at m6 (p6 + 2) line) by (unfold str_at; rewrite Hfr6 by (try apply Nl; lia); exact S7).
+    rewrite (cx_ext ext fuel (S (S D)) _ _ _ x_sbuf_free_none), (o_free ext OR m6 _ line S6). xs.
+    set (m6' := upd m6 (p6 + 2) []).
+    assert (L6' : length m6' = length m6) by (unfold m6'; apply upd_length; lia).
+    assert (Old6 : forall g z, (g < length m)%nat -> ~ lown g -> cell_at m g z -> cell_at m6' g z).
+    { intros g z Hg Nlg Hc. unfold cell_at, m6'. rewrite mem_upd_other by lia. rewrite Hfr6 by (try exact Nlg; lia). rewrite EM7. unfold M.
+      rewrite !nth_app_lt by (rewrite ?app_length; cbn [length]; lia). exact Hc. }
+    pose proof (Old6 _ _ Lx Nlx Hx) as Hx6. pose proof (Old6 _ _ Lo Nlo Ho) as Ho6.
+    rewrite (wrap_int_ok r2 Ir2), (store_cell m6' G_xrow xr r2 Hx6). xs. rewrite Eln. xs. rewrite (wrap_int_ok o2 Io2).
+    assert (Ho7 : cell_at (upd m6' G_xrow [VInt r2]) G_xoff xo).
+    { unfold cell_at. rewrite mem_upd_other; [exact Ho6|lia|vm_compute; discriminate]. }
+    rewrite (store_cell _ G_xoff xo o2 Ho7). xs.
+    set (m7 := upd (upd m6' G_xrow [VInt r2]) G_xoff [VInt o2]).
+    assert (L7' : length m7 = length m6) by (unfold m7; rewrite !upd_length by (rewrite ?upd_length by lia; lia); exact L6').
+    assert (Old7 : forall b, (length m <= b)%nat -> (b < p6 + 2)%nat -> nth_error m7 b = nth_error M7 b).
+    { intros b Hb1 Hb2. unfold m7, m6'. rewrite !mem_upd_other by (rewrite ?upd_length by (rewrite ?upd_length by lia; lia); lia). apply Hfr6; [lia|apply Nl; exact Hb1]. }
+    rewrite (free_ok m7 (length m) (cstr_block (zb ct))) by (try apply cstr_ne; rewrite Old7 by lia; rewrite EM7; apply SR). xs.
+    assert (P6 : nth_error m7 p6 = Some (cstr_block (zb pref))) by (rewrite Old7 by lia; rewrite EM7, <- (Nat.add_0_r p6); apply Q; reflexivity).
+    assert (P7 : nth_error m7 (p6 + 1) = Some (cstr_block (zb post))) by (rewrite Old7 by lia; rewrite EM7; apply Q; reflexivity).
+    rewrite (free_ok _ p6 (cstr_block (zb pref))) by (try apply cstr_ne; rewrite mem_upd_other by lia; exact P6). xs.
+    rewrite (free_ok _ (p6 + 1) (cstr_block (zb post))) by (try apply cstr_ne; rewrite !mem_upd_other by (rewrite ?upd_length by lia; lia); exact P7). xs.
+    rewrite chk_I32 by (unfold int_ok in Id; lia). xs. rewrite chk_I32 by (unfold int_ok in Id1; lia). xs.
+    rewrite (cx_ext ext fuel (S (S D)) _ _ _ x_vi_drawfix_none).
+    unfold case_mem8c in Hdraw. fold p6 in Hdraw. fold m6' in Hdraw. fold m7 in Hdraw. rewrite Hdraw. xs. reflexivity.
+  Qed.
 End Case.
 
 (* ------------------------------------------------------------------ the translated vi_case RUNS (oracle TrViOp.ideal_ext, memory TrViOp.op_mem) *)
-(* g~~ on row 1 ("cde\n"): lbuf_edit(xb, "CDE\n", 1, 2), xrow = 1, vi_drawfix(1, 1, 1, 0); gUU over rows 0..1: "AB\nCDE\n", (0, 2), xrow = 1;
+(* g~~ on row 1 ("cde\n"): lbuf_edit(xb, "CDE\n", 1, 2), xrow = 1, vi_drawfix(1, 1, 1, 0); gUU over rows 0..1: "AB\nCDE\n", (0, 2), xrow = 1; character-wise g~ from (0,1) to (1,2): "aB\nCDe\n", xoff = 2;
    guu leaves lower case alone; a multi-byte character keeps its bytes: case_b on "aé" = "Aé" *)
 Lemma case_run_examples :
   let run args xr xo := op_show (callx ideal_ext cprog 50 8 F_vi_case (map VInt args) (op_mem xr xo)) in
@@ -267,3 +386,8 @@ Lemma case_run_examples :
   run [2; 0; 2; 0; 1; 117] 2 0 = Some (VInt 16, Some [VInt 2], Some [VInt 0], [map VInt [2; 2; 3; 102; 10]; map VInt [3; 2; 2; 1; 0]]) /\
   case_b 126 [97; 195; 169]%N = [65; 195; 169]%N.
 Proof. vm_compute. repeat split; reflexivity. Qed.
+(* character-wise g~ from (0,1) to (1,2) on "ab\n" "cde\n": lbuf_edit(xb, "aB\nCDe\n", 0, 2), xrow = 1, xoff = 2, vi_drawfix(0, 1, 2, 0) *)
+Lemma case_run_chars :
+  op_show (callx ideal_ext cprog 50 8 F_vi_case (map VInt [0; 1; 1; 2; 0; 126]) (op_mem 0 1))
+  = Some (VInt 16, Some [VInt 1], Some [VInt 2], [map VInt [2; 0; 2; 97; 66; 10; 67; 68; 101; 10]; map VInt [3; 0; 1; 2; 0]]).
+Proof. vm_compute. reflexivity. Qed.
